@@ -18,10 +18,10 @@ Definition to_item (r : ritem) : item :=
 Inductive jkw := KNormal | KFlexStart | KFlexEnd | KStart | KEnd | KLeft | KRight | KCenter
                | KBetween | KAround | KEvenly | KStretch.
 
-(* step 12 prologue: 'normal' is flex-start; *-reverse swaps flex-start/flex-end; then the membership tests
-   ('start', 'left', 'stretch' fall through: no offset) *)
+(* step 12 prologue: 'normal' and 'stretch' are flex-start; *-reverse swaps flex-start/flex-end; then the
+   membership tests ('start', 'left' fall through: no offset) *)
 Definition jmap_code (reverse : bool) (k : jkw) : justify :=
-  let k0 := match k with KNormal => KFlexStart | x => x end in
+  let k0 := match k with KNormal | KStretch => KFlexStart | x => x end in
   let k1 := if reverse then match k0 with KFlexStart => KFlexEnd | KFlexEnd => KFlexStart | x => x end else k0 in
   match k1 with
   | KEnd | KFlexEnd | KRight => JEnd
@@ -76,7 +76,7 @@ Definition row_code (column : bool) (wrapm : nat) (reverse : bool) (k : jkw) (or
   all_some (map (fun line =>
     match targets (resolve (map to_item line) gap W) with
     | None => None
-    | Some ts => Some (justify_line (jmap_code reverse k) origin W gap (zipj column line ts))
+    | Some ts => Some (justify_line reverse (jmap_code reverse k) origin W gap (zipj column line ts))
     end) (lines_code wrapm reverse W gap items)).
 
 (* css-flexbox reference of the same pipeline *)
@@ -92,7 +92,7 @@ Definition row_css (column : bool) (wrapm : nat) (reverse : bool) (k : jkw) (ori
   all_some (map (fun line =>
     match targets (resolve (map to_item line) gap W) with
     | None => None
-    | Some ts => Some (justify_css reverse (jmap_css column reverse k) origin W gap (zipj false line ts))
+    | Some ts => Some (justify_line reverse (jmap_css column reverse k) origin W gap (zipj false line ts))
     end) (lines_css wrapm reverse W gap items)).
 
 (* ---- judge.  Implementation output: per item (id, line index, position_x, width) *)
